@@ -257,6 +257,8 @@ class Interp:
                 raise ValueError(kind)
             out = Out(val=v)
         except Exception as e:       # noqa
+            if isinstance(e, OSError) and any(len(c.encode("utf-8")) > 255 for c in path):
+                e = OSError("unspecified class for an over-long component")
             out = Out(exc=e)
         q = "%s(%s)" % (kind, ",".join(show_val(a) for a in shown_args))
         self.stats["asks"] += 1
@@ -594,6 +596,6 @@ def coq_obs(obs):
 
 COQ_HEADER = """From Coq Require Import List String ZArith NArith Bool. Import ListNotations.
 From FB.Base Require Import PyVal Fs. From FB.Spec Require Import Prog.
-From FB.Model Require Import Types Monad Builder Persist Build Run Dsl.
+From FB.Model Require Import Types Monad Builder Persist Build Run Dsl. From FB.Spec Require Import Ref Oracle.
 Open Scope string_scope. Open Scope list_scope.
 """
